@@ -81,7 +81,9 @@ def s2m_rules(ctx, fv):
     mins = [b for lid, b in fv.binds.items() if b["mut"] and "Vec<std::string::String>" in b["ty"]]
     mins_ids = [lid for lid, b in fv.binds.items() if b["mut"] and "Vec<std::string::String>" in b["ty"]]
     if len(mins_ids) != 1:
-        ctx.fail("C10.W", "seq_to_min:line_vec", "line vector (Vec<String>) not found", line_of(then))
+        if string_line_rules(ctx, fv, then, loop, fmts):
+            return
+        ctx.fail("C10.W", "seq_to_min:line_vec", "line container (a Vec<String> joined by TAB, or one String buffer) not found", line_of(then))
         return
     mv = ("local", fv.binds[mins_ids[0]]["name"], mins_ids[0])
     def want(n):
@@ -194,9 +196,16 @@ def m2s_rules(ctx, fv):
               "(record.id, item.1, item.2) in both" % (show(t1) if t1 else "?", show(t2) if t2 else "?"), line_of(e))
     # output after the scope: one line per entry "{k}\t{v:?}\n"
     scans = [n for n in fv.nodes if n.get("k") == "mcall" and cname(n).startswith("scc::") and cname(n).endswith("::scan")]
-    oks = len(scans) == 1 and fv.in_closure_passed_to(scans[0], is_spawn) is None
+    sview = fv
+    if not scans:
+        # the output stage may be a helper called after the scope has joined
+        for c, hv in helper_views(ctx, fv):
+            hs = [n for n in hv.nodes if n.get("k") == "mcall" and cname(n).startswith("scc::") and cname(n).endswith("::scan")]
+            if hs and fv.in_closure_passed_to(c, is_spawn) is None:
+                scans, sview = hs, hv
+    oks = len(scans) == 1 and sview.in_closure_passed_to(scans[0], is_spawn) is None
     if oks:
-        fm = formats_in(fv, scans[0])
+        fm = formats_in(sview, scans[0])
         oks = len(fm) == 1 and fmt_template(fm[0][1]) == "{}\t{:?}\n" and fm[0][1][2] == (("cparam", 0), ("cparam", 1))
     ctx.check("C10.I", "bin_sequences:one_line_per_entry", bool(oks), "after the scope: one `key TAB list` line per map entry",
               "the inverted map is not written as one \"{k}\\t{v:?}\\n\" line per entry after the workers joined",
@@ -266,3 +275,51 @@ def window_rule(ctx, rule):
                           "absurd capacity) for a record shorter than m when w = 0" % (show(w), show(m)), line_of(c))
     if n < 2:
         ctx.fail(rule, "window:floor", "expected 2 runtime-sized window arguments (s2m and m2s, w == 0), found %d" % n)
+
+
+
+def string_line_rules(ctx, fv, then, loop, fmts):
+    """the line is assembled in ONE String: id, then per run TAB + text, then TAB + newline; written once per record
+    under the writer lock.  Byte-identical to [id, runs.., "\\n"].join("\\t")."""
+    ws = [n for n in walk(then) if n.get("k") == "mcall" and cname(n).endswith("Write::write_all")]
+    if len(ws) != 1:
+        return False
+    w = ws[0]
+    data = fv.term(w["args"][0])
+    if data[0] != "local":
+        return False
+    lid = data[2]
+    b = fv.binds.get(lid)
+    if b is None or "string::String" not in b.get("ty", ""):
+        return False
+    init = fv.term(b["val"][1]) if b["val"][0] == "node" else ("none",)
+    apps_out, apps_in = [], []
+    for n in walk(then):
+        if n.get("k") == "mcall" and n["recv"].get("k") == "local" and n["recv"].get("id") == lid \
+                and cname(n).split("::")[-1] in ("push", "push_str"):
+            a = fv.term(n["args"][0])
+            (apps_in if any(x is loop for x in fv.ancestors(n)) else apps_out).append((n, a))
+
+    def lit(t):
+        while t[0] == "call" and len(t) == 3 and t[1].split("::")[-1] in ("to_string", "to_owned", "from", "into"):
+            t = t[2]
+        return t[1] if t[0] == "lit" and isinstance(t[1], str) else None
+    ok_id = init[0] == "field" and init[2] == "id" and contains(init, lambda s_: s_[0] == "call" and s_[1].endswith("Iterator::next"))
+    ok_tail = len(apps_out) == 1 and lit(apps_out[0][1]) == "\t\n"
+    ok_run = len(apps_in) == 2 and lit(apps_in[0][1]) == "\t" and fmts and apps_in[1][1] == fmts[0][1]
+    branchy = [x for x in walk(loop["body"]) if x.get("k") in ("if", "match", "break", "continue", "ret")]
+    rty = w["recv"].get("ty", "")
+    # one write on every path, after the final append
+    def want(n):
+        return n is w or (apps_out and n is apps_out[0][0])
+    paths = enum_paths(then, want)
+    ok_paths = all([e[1] for e in ev if e[0] == "ev"] == [apps_out[0][0], w] and ex[0] in ("fall", "continue")
+                   for ev, ex in paths) if apps_out else False
+    ok = ok_id and ok_tail and ok_run and not branchy and rty.startswith("std::sync::MutexGuard<") and ok_paths
+    ctx.check("C10.W", "seq_to_min:one_line_per_record", ok,
+              "line = id, (TAB + run text) per run, TAB + newline, written once under the writer lock (String buffer form)",
+              "the String-buffer line is not `id (TAB run)* TAB newline` written exactly once per taken record under the writer's "
+              "MutexGuard (id:%s tail:%s run:%s paths:%s guard:%s)" % (ok_id, ok_tail, ok_run, ok_paths, rty[:40]), line_of(w))
+    ctx.check("C10.W", "seq_to_min:one_text_per_run", ok_run and not branchy, "one run text per iterator item",
+              "the run loop does not append exactly TAB + run text per item", line_of(loop))
+    return True
